@@ -693,10 +693,35 @@ def fals_fill(ctx, case):
         for b, qb in enumerate(good):
             full_cor[qa, qb] = cor_r[a, b]
 
+    from pulser.backend.observable import Observable
+    from emu_base.utils import observable_aggregation_kwargs
+    from emu_mps.mps_backend_impl import NoisyMPSBackendImpl
+
+    seen = []
+
+    class StateProbe(Observable):
+        """records what the callbacks are handed: the dense state (its norm must be 1) and the operator's size"""
+
+        def __init__(self):
+            super().__init__(evaluation_times=[1.0], **observable_aggregation_kwargs("MEAN"))
+
+        @property
+        def _base_tag(self):
+            return "c13_state_probe"
+
+        def apply(self, *, config, state, hamiltonian, **kw):
+            dense = _dense_state(state.factors)
+            seen.append({"norm_dense": float(torch.linalg.vector_norm(dense)), "norm_method": float(state.norm()),
+                         "sites": len(state.factors), "h_sites": len(hamiltonian.factors),
+                         "dims": sorted({int(f.shape[1]) for f in state.factors}),
+                         "center": state.orthogonality_center, "dense": dense.numpy().copy()})
+            return torch.tensor(seen[-1]["norm_dense"])
+
     obs = [Occupation(evaluation_times=[1.0]), CorrelationMatrix(evaluation_times=[1.0]),
            Energy(evaluation_times=[1.0]), EnergyVariance(evaluation_times=[1.0]),
-           EnergySecondMoment(evaluation_times=[1.0])]
+           EnergySecondMoment(evaluation_times=[1.0]), StateProbe()]
     cfg = MPSConfig(observables=obs, log_level=1000)
+    impl_cls = NoisyMPSBackendImpl if case.get("impl") == "noisy" else MPSBackendImpl
     st = MPS([t.clone() for t in fs], num_gpus_to_use=0, eigenstates=_eig(d))
     if case["center"] is not None:
         st.orthogonalize(case["center"])
@@ -710,7 +735,7 @@ def fals_fill(ctx, case):
         ctx.violation(what, {"case": case, "finding_key": key, **kv})
 
     try:
-        MPSBackendImpl.fill_results(fake)
+        impl_cls.fill_results(fake)
     except Exception as ex:  # noqa: BLE001 - any exception on a valid state/mask is a defect
         key = "qutrit-dark-atom-padding" if (d == 3 and not all(mask)) else "fill-results-raises"
         bad(f"fill_results raised {type(ex).__name__}: {str(ex)[:160]} (dim={d}, mask={mask})", key)
@@ -718,6 +743,22 @@ def fals_fill(ctx, case):
     res = {}
     for o in cfg.observables:
         res[o.tag] = fake.results.get_result(o, 1.0)
+    # the state object handed to the callbacks: norm 1, one site per atom, the normalised state (x) |g> on dark atoms
+    if len(seen) != 1:
+        bad(f"the probe observable was called {len(seen)} times", "fill-probe")
+    else:
+        pr = seen[0]
+        if abs(pr["norm_dense"] - 1.0) > TOL or abs(pr["norm_method"] - 1.0) > TOL:
+            bad(f"the state handed to the observable callbacks has norm {pr['norm_dense']} (state.norm() = "
+                f"{pr['norm_method']}); internal state norm {math.sqrt(n2)}, mask={mask}", "fill-state-not-normalised")
+        if pr["sites"] != len(mask) or pr["h_sites"] != len(mask) or pr["dims"] != [d]:
+            bad(f"callbacks got {pr['sites']} state sites / {pr['h_sites']} operator sites of dims {pr['dims']} for "
+                f"{len(mask)} atoms of dimension {d}", "fill-register-size")
+        want = np.zeros([d] * len(mask), dtype=complex)
+        idx = tuple(slice(None) if m else 0 for m in mask)
+        want[idx] = psi / math.sqrt(n2)
+        if not _close(pr["dense"], want, 1.0):
+            bad("the state handed to the callbacks is not psi/|psi| (x) |g..g> on the dark atoms", "fill-padded-state")
     occ = np.asarray(res["occupation"])
     cor = np.asarray(res["correlation_matrix"])
     if not _close(occ, full_occ, 1.0):
@@ -765,8 +806,29 @@ def gen_fals_case(rng, kind):
         mask = [True] + [False] * n_dark + [True] * (n_good - 1)
     chi = rng.randint(1, 4)
     bonds = [1] + [rng.randint(1, chi) for _ in range(n_good - 1)] + [1]
+    scale = rng.choice([1.0, 0.3, 1.5, round(rng.uniform(0.3, 1.5), 3), round(rng.uniform(0.3, 1.5), 3), 7.0])
     return {"kind": "fals_fill", "mask": mask, "d": d, "bonds": bonds, "seed": seed, "scale": scale,
-            "center": rng.choice([None] + list(range(n_good))), "force_filter": rng.random() < 0.3, "style": style}
+            "center": rng.choice([None] + list(range(n_good))), "force_filter": rng.random() < 0.3, "style": style,
+            "impl": rng.choice(["plain", "noisy"])}
+
+
+def fill_sweep(rng):
+    """deterministic part, always run: every mask kind x dimension x backend class x internal-state norm
+    (Lindbladian noise between quantum jumps leaves the trajectory state with norm < 1)"""
+    masks = {"none": [True, True, True], "leading": [False, True, True, True], "trailing": [True, True, False],
+             "adjacent": [True, False, False, True], "middle": [True, False, True], "both-ends": [False, True, True, False]}
+    out = []
+    for d in (2, 3):
+        for style, mask in masks.items():
+            for impl in ("plain", "noisy"):
+                for scale in (0.3, 0.8, 1.0, 1.5):
+                    n = sum(mask)
+                    bonds = [1] + [2] * (n - 1) + [1]
+                    out.append({"kind": "fals_fill", "mask": mask, "d": d, "bonds": bonds, "seed": rng.getrandbits(40),
+                                "scale": scale, "center": rng.choice([None] + list(range(n))),
+                                "force_filter": style == "none" and impl == "noisy", "style": style, "impl": impl,
+                                "sweep": True})
+    return out
 
 
 FALS = {"fals_sv": fals_sv, "fals_dm": fals_sv, "fals_mps": fals_mps, "fals_fill": fals_fill}
@@ -797,6 +859,7 @@ def run(ctx):
 
     # ---- corpus + falsifier on the real code ----------------------------------------------------
     fcases = [dict(c, corpus=True) for c in corpus_cases()]
+    fcases += fill_sweep(rng)
     for kind, nq, nt in (("fals_sv", 40, 400), ("fals_dm", 20, 200), ("fals_mps", 40, 400), ("fals_fill", 40, 400)):
         fcases += [gen_fals_case(rng, kind) for _ in range(ctx.n(nq, nt))]
     for c in fcases:
@@ -805,6 +868,7 @@ def run(ctx):
         h(f"{c['kind']}/d={c.get('d', 2)}/size={size}")
         if c["kind"] == "fals_fill":
             h(f"fill/dark={len(c['mask']) - sum(c['mask'])}/{c['style']}")
+            h(f"fill/impl={c.get('impl', 'plain')}/norm={'1' if c['scale'] == 1.0 else ('<1' if c['scale'] < 1 else '>1')}")
         ctx.count_case({k: v for k, v in c.items()} | {"info": info}, size >= 2)
 
     # ---- exact correspondence model <-> real code -------------------------------------------------
@@ -888,7 +952,9 @@ def run(ctx):
                 "of length <= 6 (8) for the site index; falsifier: random complex unnormalised/normalised state "
                 "vectors (N 1-8), density matrices (N 1-5), non-canonical MPS (qubit 2-8, qutrit 2-5 atoms, random "
                 "bonds 1-4, orthogonality centre None or any site) with the real Hamiltonian objects, and "
-                "fill_results with dark-atom masks; non-trivial = at least 2 atoms (padding: at least one dark atom); "
+                "fill_results (MPSBackendImpl and NoisyMPSBackendImpl) with dark-atom masks and internal states of norm 0.3-1.5 "
+                "(always: the sweep 2 dims x 6 mask kinds x 2 classes x 4 norms; a probe observable records the state "
+                "object handed to the callbacks); non-trivial = at least 2 atoms (padding: at least one dark atom); "
                 "distinct by input hash")
     ctx.trusted_base += ["hand-written Gallina models coq/Model/SvObs.v, coq/Model/MpsPad.v (F2/F3 semantics of torch "
                          "views and contractions), validated by the exact correspondence on every run",
